@@ -34,6 +34,15 @@
   `loss_detector_selection_is_conditioning` (the whole pipeline = detectors on the marginal, one conditioning),
   `pnr_detectors_are_no_detectors`.  Model `Model/C07Mix.lean`: the noisy source TOGETHER with heralds /
   post-selection / filter on the loss layer (`loss_noisy_selection_is_conditioning`).
+  Wave 7 (proofs only): `loss_selection_nothing_passes` / `loss_selection_perf_product_total` (the filter case
+  `loss_selection_is_conditioning` excludes: code `logical_perf = 1`, specification 0, products equal — so
+  `physical_perf` and `physical_perf · logical_perf` are the specification's with no hypothesis on the filter);
+  `loss_detector_selection_end_to_end`, `loss_noisy_selection_end_to_end` (normalisation and filter-mass hypotheses
+  discharged for every accepted list with unitary components); `evolve_superposition_linear` (`evolve` on a
+  superposition is the coefficient-weighted list of the Fock runs' contributions); `loss_channel_amplitude_composes`,
+  `unitary_component_amplitude_composes` (C02's composition law instantiated on the rewritten list: one recursion
+  step per list element).  Still not proved: the closed form of the whole circuit's DISTRIBUTION as a composition
+  of the per-channel thinning laws (amplitudes compose, probabilities do not); annotated photons.
 -/
 import PercevalModel.Lemmas.C07
 import PercevalModel.Lemmas.C07Mass
@@ -42,6 +51,7 @@ import PercevalModel.Lemmas.C07Spect
 import PercevalModel.Lemmas.C07Sel
 import PercevalModel.Lemmas.C07Det
 import PercevalModel.Lemmas.C07Mix
+import PercevalModel.Lemmas.C07More
 import PercevalModel.Props.C02
 
 open Matrix
@@ -1188,5 +1198,191 @@ example : ((sourceDist (3/4) [1, 1, 0]).map (·.1)).sum = 1 ∧
   simp only [exItems, AllUnitary, and_true]
   refine ⟨?_, ?_, ?_, ?_⟩ <;> unfold IsUnitary <;> decide +kernel
 
+
+
+/-! ## Wave 7 — hypotheses discharged, the excluded filter case, `evolve` on superpositions, composition -/
+
+
+/-- **loss_selection_nothing_passes** (the case `loss_selection_is_conditioning` excludes): for every selection, every
+mode count and every normalised non-negative enlarged distribution in which NOTHING passes the photon filter,
+`_postprocess_bsd` reports `physical_perf = 0` (the specification's value) and `logical_perf = 1`, where the
+specification's convention is `logicalPerf = 0`; nothing is retained.  The one place where the code and the
+specification name different numbers — and their products agree (next theorem). -/
+theorem loss_selection_nothing_passes (σ : Sel) (M : ℕ) (d : Dist.D) (hd : Dist.mass d = 1) (hn : Nonneg d)
+    (hp : SimSpec.physPerf σ.cond (postprocess M d) = 0) :
+    (lossPost σ M d).2.2 = 0 ∧ (lossPost σ M d).2.1 = 1 ∧
+      SimSpec.logicalPerf σ.cond (postprocess M d) = 0 ∧
+      Dist.mass (SimSpec.retained σ.cond (postprocess M d)) = 0 :=
+  lossPost_nothing_passes σ M d hd hn hp
+
+/-- **loss_selection_perf_product_total**: WITHOUT any hypothesis on the photon filter — for every selection, every
+mode count and every normalised non-negative enlarged distribution, `physical_perf` is the specification's
+`physPerf` of the marginal distribution and `physical_perf · logical_perf` is exactly the retained probability. -/
+theorem loss_selection_perf_product_total (σ : Sel) (M : ℕ) (d : Dist.D) (hd : Dist.mass d = 1) (hn : Nonneg d) :
+    (lossPost σ M d).2.2 * (lossPost σ M d).2.1 = Dist.mass (SimSpec.retained σ.cond (postprocess M d)) ∧
+      (lossPost σ M d).2.2 = SimSpec.physPerf σ.cond (postprocess M d) := by
+  by_cases hp : SimSpec.physPerf σ.cond (postprocess M d) = 0
+  · obtain ⟨h1, _, _, h4⟩ := loss_selection_nothing_passes σ M d hd hn hp
+    rw [h1, h4, hp, zero_mul]
+    exact ⟨rfl, rfl⟩
+  · obtain ⟨⟨_, h2⟩, h3⟩ := lossPost_spec σ M d hd hp
+    rw [h2, h3]
+    exact ⟨SimSpec.perf_product _ _ hp, rfl⟩
+
+/-- **loss_detector_selection_end_to_end**: `loss_detector_selection_is_conditioning` with both its analytic
+hypotheses discharged.  For every accepted component list (any interleaving of unitary components and loss
+channels, `WF`) with unitary components and unitary channel blocks, every Fock input on the `M` original modes the
+forwarded filter lets through, every non-PNR detector list with non-negative row-stochastic kernels and every
+selection that retains something: the whole pipeline reports exactly the specification (detectors on the original
+modes of the marginal distribution, one conditioning), the reported distribution has total probability one and
+`physical_perf · logical_perf` is the retained probability.  (The normalisation of the enlarged distribution is
+`expanded_isUnitary` + C02's Parseval theorem; the filter's mass is non-zero because probabilities are
+non-negative.) -/
+theorem loss_detector_selection_end_to_end (M N : ℕ) (items : Items GQ) (hwf : WF N M items)
+    (hu : AllUnitary items) (hMN : M ≤ N) (σ : Sel) (ds : List DetK) (hds : ds.length = M)
+    (s : List ℕ) (hlen : s.length = M) (hs : σ.minDet ≤ s.sum) (hst : ∀ d ∈ ds, Stoch d.kern)
+    (hnn : ∀ d ∈ ds, ∀ n, ∀ e ∈ d.kern n, (0 : ℚ) ≤ e.2)
+    (hmix : detType (padDetectors M N ds) ≠ .pnr)
+    (hr : Dist.mass (SimSpec.retained σ.cond (detectMarginal ds (prod N (rewrite M items)) M s)) ≠ 0) :
+    (lossDetSvd σ ds (prod N (rewrite M items)) M s).1 =
+        SimSpec.conditioned σ.cond (detectMarginal ds (prod N (rewrite M items)) M s) ∧
+      Dist.mass (lossDetSvd σ ds (prod N (rewrite M items)) M s).1 = 1 ∧
+      (lossDetSvd σ ds (prod N (rewrite M items)) M s).2.1 =
+        SimSpec.logicalPerf σ.cond (detectMarginal ds (prod N (rewrite M items)) M s) ∧
+      (lossDetSvd σ ds (prod N (rewrite M items)) M s).2.2 =
+        SimSpec.physPerf σ.cond (detectMarginal ds (prod N (rewrite M items)) M s) ∧
+      (lossDetSvd σ ds (prod N (rewrite M items)) M s).2.2 * (lossDetSvd σ ds (prod N (rewrite M items)) M s).2.1 =
+        Dist.mass (SimSpec.retained σ.cond (detectMarginal ds (prod N (rewrite M items)) M s)) := by
+  have hd : Dist.mass (fullDist (prod N (rewrite M items)) (prepareInput M N s)) = 1 :=
+    fullDist_mass_one _ (expanded_isUnitary N items M hwf hu) _ (prepareInput_spec M N s hlen hMN).1
+  have hp := physPerf_ne_zero_of_retained _ _ (nonneg_detectMarginal ds _ M s hnn) hr
+  obtain ⟨h1, h2, h3⟩ := loss_detector_selection_is_conditioning σ ds _ M hMN hds s hs hst hnn hmix hd hp
+  refine ⟨h1 hr, ?_, h2, h3, ?_⟩
+  · rw [h1 hr]; exact SimSpec.conditioned_mass_one _ _ hr
+  · rw [h2, h3]; exact SimSpec.perf_product _ _ hp
+
+/-- **loss_noisy_selection_end_to_end**: `loss_noisy_selection_is_conditioning` with its analytic hypotheses
+discharged.  For every accepted component list with unitary components and unitary channel blocks, every source
+distribution of Fock inputs on the `M` original modes with non-negative weights summing to one, and every selection
+that retains something of the mixture: `LossSimulator.probs_svd` reports the mixture of the marginal distributions
+conditioned once, with the specification's `logical_perf` and `physical_perf`; the reported distribution has total
+probability one and `physical_perf · logical_perf` is the retained probability. -/
+theorem loss_noisy_selection_end_to_end (M N : ℕ) (items : Items GQ) (hwf : WF N M items)
+    (hu : AllUnitary items) (hMN : M ≤ N) (σ : Sel) (src : List (ℚ × List ℕ))
+    (hlen : ∀ q ∈ src, q.2.length = M) (hw : (src.map (·.1)).sum = 1) (hnn : ∀ ws ∈ src, (0 : ℚ) ≤ ws.1)
+    (hr : Dist.mass (SimSpec.retained σ.cond (lossProbsMix (prod N (rewrite M items)) M src)) ≠ 0) :
+    (lossMixSvdSel σ (prod N (rewrite M items)) M src).1 =
+        SimSpec.conditioned σ.cond (lossProbsMix (prod N (rewrite M items)) M src) ∧
+      Dist.mass (lossMixSvdSel σ (prod N (rewrite M items)) M src).1 = 1 ∧
+      (lossMixSvdSel σ (prod N (rewrite M items)) M src).2.1 =
+        SimSpec.logicalPerf σ.cond (lossProbsMix (prod N (rewrite M items)) M src) ∧
+      (lossMixSvdSel σ (prod N (rewrite M items)) M src).2.2 =
+        SimSpec.physPerf σ.cond (lossProbsMix (prod N (rewrite M items)) M src) ∧
+      (lossMixSvdSel σ (prod N (rewrite M items)) M src).2.2 *
+          (lossMixSvdSel σ (prod N (rewrite M items)) M src).2.1 =
+        Dist.mass (SimSpec.retained σ.cond (lossProbsMix (prod N (rewrite M items)) M src)) := by
+  have hd : ∀ ws ∈ src, Dist.mass (fullDist (prod N (rewrite M items)) (prepareInput M N ws.2)) = 1 :=
+    fun ws h => fullDist_mass_one _ (expanded_isUnitary N items M hwf hu) _
+      (prepareInput_spec M N ws.2 (hlen ws h) hMN).1
+  have hp := physPerf_ne_zero_of_retained _ _ (nonneg_lossProbsMix _ M src hnn) hr
+  obtain ⟨h1, h2, h3⟩ := loss_noisy_selection_is_conditioning σ _ M src hw hnn hd hp
+  refine ⟨h1 hr, ?_, h2, h3, ?_⟩
+  · rw [h1 hr]; exact SimSpec.conditioned_mass_one _ _ hr
+  · rw [h2, h3]; exact SimSpec.perf_product _ _ hp
+
+/-- **evolve_superposition_linear**: `LossSimulator.evolve` on a superposition input (any number of terms, any
+complex coefficients, terms of different photon numbers allowed) is, contribution by contribution and in order,
+the coefficient-weighted list of the contributions `evolve` accumulates for each Fock term alone: the coefficient
+multiplies the amplitude, key and radicand are those of the Fock run.  Together with
+`evolve_incoherent_eq_probs` (each Fock run's contributions are the amplitudes whose squared moduli `probs`
+accumulates) this determines `evolve` on superpositions from the Fock theorems. -/
+theorem evolve_superposition_linear {N : ℕ} (U : Matrix (Fin N) (Fin N) GQ) (M : ℕ)
+    (inp : List (List ℕ × GQ)) :
+    lossEvolve U M inp =
+      inp.flatMap fun p => (lossEvolve U M [(p.1, 1)]).map fun e => (e.1, p.2 * e.2.1, e.2.2) := by
+  induction inp with
+  | nil => rfl
+  | cons p r ih =>
+    rw [List.flatMap_cons, ← ih]
+    simp [lossEvolve, postprocessSV, evolveSV, List.flatMap_cons]
+
+/-- **loss_channel_amplitude_composes**: C02's composition law instantiated on the rewritten list.  For every accepted
+list that starts with a loss channel, the Fock amplitude of the WHOLE enlarged circuit (the three blocks the code
+emits for the channel, then everything the code emits for the rest) from `S` to `T` is the sum over the
+intermediate Fock states `u` of (amplitude of the channel's two-mode block on (channel mode, its fresh mode),
+`S → u` — the operator of `channel_block_with_spectators` / `lc_thinning_with_spectators`) × (amplitude of the
+rest of the rewritten list, `u → T`) / `∏ uᵢ!`.  Amplitudes, not probabilities, compose. -/
+theorem loss_channel_amplitude_composes (N nfm r0 : ℕ) (c s : GQ) (rest : Items GQ)
+    (h : WF N nfm ((r0, .lc c s) :: rest)) (S T : List ℕ) (hS : S.length = N) (hT : T.length = N)
+    (hST : S.sum = T.sum) :
+    Fock.pamp (prod N (rewrite nfm ((r0, .lc c s) :: rest))) S T =
+      ((Fock.allStates N S.sum).map fun u =>
+        Fock.pamp (prod N (rewrite (nfm + 1) rest)) u T * Fock.pamp (twoMode N r0 nfm (bsH c s)) S u *
+          GQ.ofRat (1 / (Fock.prodFact u : ℚ))).sum := by
+  rw [expanded_unitary N _ nfm h]
+  simp only [spec, prod_cons]
+  rw [← expanded_unitary N rest (nfm + 1) h.2.2]
+  exact FockComp.pamp_mul_GQ _ _ S T hS hT hST
+
+/-- the same recursion step for a list that starts with a unitary component: its embedded matrix first, then the
+rest of the rewritten list (same fresh-mode counter).  With `FockComp.pamp_one` for the empty list the two steps
+determine the amplitude of every rewritten list by recursion on the list. -/
+theorem unitary_component_amplitude_composes (N nfm r0 k : ℕ) (V : Matrix (Fin k) (Fin k) GQ) (rest : Items GQ)
+    (S T : List ℕ) (hS : S.length = N) (hT : T.length = N) (hST : S.sum = T.sum) :
+    Fock.pamp (prod N (rewrite nfm ((r0, .uni k V) :: rest))) S T =
+      ((Fock.allStates N S.sum).map fun u =>
+        Fock.pamp (prod N (rewrite nfm rest)) u T * Fock.pamp (embed N r0 V) S u *
+          GQ.ofRat (1 / (Fock.prodFact u : ℚ))).sum := by
+  simp only [rewrite, prod_cons]
+  exact FockComp.pamp_mul_GQ _ _ S T hS hT hST
+
+/-- necessity of `hd` in `loss_selection_is_conditioning` -/
+example : SimSpec.physPerf (⟨[], .tt, 0, false⟩ : Sel).cond (postprocess 1 [([0], 1/2)]) ≠ 0 ∧
+    (lossPost ⟨[], .tt, 0, false⟩ 1 [([0], 1/2)]).2.2 ≠
+      SimSpec.physPerf (⟨[], .tt, 0, false⟩ : Sel).cond (postprocess 1 [([0], 1/2)]) := by
+  decide +kernel
+
+/-- non-vacuity of `loss_selection_nothing_passes` -/
+example : Dist.mass [([1, 0], (1 : ℚ))] = 1 ∧ Nonneg [([1, 0], (1 : ℚ))] ∧
+    SimSpec.physPerf (⟨[], .tt, 2, false⟩ : Sel).cond (postprocess 1 [([1, 0], 1)]) = 0 := by
+  refine ⟨by decide +kernel, ?_, by decide +kernel⟩
+  intro p hp
+  simp only [List.mem_singleton] at hp
+  rw [hp]; norm_num
+
+/-- the example program is accepted and its components are unitary -/
+theorem exItems_ok : WF 6 3 exItems ∧ AllUnitary exItems := by
+  refine ⟨by simp [exItems, WF], ?_⟩
+  simp only [exItems, AllUnitary, and_true]
+  refine ⟨?_, ?_, ?_, ?_⟩ <;> unfold IsUnitary <;> decide +kernel
+
+/-- non-vacuity of `loss_noisy_selection_end_to_end`: program `exItems`, the emission-only source, selection `exSel` -/
+example : (∀ q ∈ sourceDist (3/4) [1, 1, 0], q.2.length = 3) ∧
+    ((sourceDist (3/4) [1, 1, 0]).map (·.1)).sum = 1 ∧
+    (∀ ws ∈ sourceDist (3/4) [1, 1, 0], (0 : ℚ) ≤ ws.1) ∧
+    Dist.mass (SimSpec.retained exSel.cond
+      (lossProbsMix (prod 6 (rewrite 3 exItems)) 3 (sourceDist (3/4) [1, 1, 0]))) ≠ 0 := by
+  refine ⟨sourceDist_length _ _, sourceDist_mass_one _ _, by decide +kernel, by decide +kernel⟩
+
+/-- non-vacuity of `loss_detector_selection_end_to_end`: program `exItems`, threshold detectors on modes 0 and 1, none on
+mode 2 (Mixed once padded), input `[1, 1, 0]`, selection `exSel` -/
+example : ([DetK.thr, .thr, .none] : List DetK).length = 3 ∧ ([1, 1, 0] : List ℕ).length = 3 ∧
+    exSel.minDet ≤ ([1, 1, 0] : List ℕ).sum ∧
+    (∀ d ∈ [DetK.thr, .thr, .none], Stoch d.kern) ∧
+    (∀ d ∈ [DetK.thr, .thr, .none], ∀ n, ∀ e ∈ d.kern n, (0 : ℚ) ≤ e.2) ∧
+    detType (padDetectors 3 6 [.thr, .thr, .none]) ≠ .pnr ∧
+    Dist.mass (SimSpec.retained exSel.cond
+      (detectMarginal [.thr, .thr, .none] (prod 6 (rewrite 3 exItems)) 3 [1, 1, 0])) ≠ 0 := by
+  refine ⟨rfl, rfl, by decide, ?_, ?_, by decide, by decide +kernel⟩
+  · intro d hd
+    simp only [List.mem_cons, List.not_mem_nil, or_false] at hd
+    rcases hd with rfl | rfl | rfl
+    · exact stoch_thr
+    · exact stoch_thr
+    · exact stoch_none
+  · intro d hd n e he
+    simp only [List.mem_cons, List.not_mem_nil, or_false] at hd
+    rcases hd with rfl | rfl | rfl <;>
+      (simp only [DetK.kern, List.mem_singleton] at he; rw [he]; norm_num)
 
 end PM.C07
